@@ -172,6 +172,40 @@ def subst(v, name, new):
     return v
 
 
+def replace(v, pred, new):
+    """the value with every sub-value satisfying pred replaced by `new` (structure rebuilt)"""
+    if pred(v):
+        return new
+    if isinstance(v, Sym) and v.struct:
+        st = v.struct
+        kind = st[0]
+        if kind == 'binop':
+            l, r = replace(st[2], pred, new), replace(st[3], pred, new)
+            return v if (l is st[2] and r is st[3]) else Sym('(%s %s %s)' % (show(l), st[1], show(r)), struct=('binop', st[1], l, r))
+        if kind == 'call':
+            args = tuple(replace(a, pred, new) for a in st[2])
+            kws = {k: replace(x, pred, new) for k, x in st[3].items()}
+            rest = tuple(replace(x, pred, new) if isinstance(x, Sym) else x for x in st[4:])
+            if all(a is b for a, b in zip(args, st[2])) and all(kws[k] is st[3][k] for k in kws) and all(a is b for a, b in zip(rest, st[4:])):
+                return v
+            fname = show(rest[0]) if rest and isinstance(rest[0], Sym) and rest[0].struct and rest[0].struct[0] == 'attr' else st[1]
+            return Sym('%s(%s)' % (fname, ', '.join([show(a) for a in args] + ['%s=%s' % (k, show(x)) for k, x in kws.items()])), attrs=dict(v.attrs), struct=('call', st[1], args, kws) + rest)
+        if kind == 'index':
+            b, k = replace(st[1], pred, new), replace(st[2], pred, new)
+            return v if (b is st[1] and k is st[2]) else Sym('%s[%s]' % (show(b), show(k) if not isinstance(k, tuple) else ', '.join(show(x) for x in k)), struct=('index', b, k))
+        if kind == 'attr':
+            b = replace(st[1], pred, new)
+            return v if b is st[1] else Sym('%s.%s' % (show(b), st[2]), struct=('attr', b, st[2]))
+        return v
+    if isinstance(v, tuple):
+        out = tuple(replace(x, pred, new) for x in v)
+        return v if all(a is b for a, b in zip(out, v)) else out
+    if isinstance(v, list):
+        out = [replace(x, pred, new) for x in v]
+        return v if all(a is b for a, b in zip(out, v)) else out
+    return v
+
+
 def comp_element(v, index):
     """element number `index` (a value) of a symbolic comprehension over range(lo, ...) with unit step, else None"""
     if isinstance(v, Sym) and v.struct and v.struct[0] == 'comp':
